@@ -35,6 +35,44 @@ type val struct {
 	B string
 }
 
+// rec is the value type of the TYPED store: both members are omitted from the stored JSON
+// document when empty, so stored documents have differing member sets.
+type rec struct {
+	A string `json:"A,omitempty"`
+	B string `json:"B,omitempty"`
+}
+
+// mkVal builds the value handed to the store: a rec, or for the UNTYPED (default
+// map[string]interface{}) store a record holding only the non-empty members.
+func mkVal(untyped bool, a, b string) interface{} {
+	if !untyped {
+		return rec{a, b}
+	}
+	m := map[string]interface{}{}
+	if a != "" {
+		m["A"] = a
+	}
+	if b != "" {
+		m["B"] = b
+	}
+	return m
+}
+
+// member reads a string member of a stored value of either store type ("" when absent).
+func member(v interface{}, name string) string {
+	switch x := v.(type) {
+	case rec:
+		if name == "A" {
+			return x.A
+		}
+		return x.B
+	case map[string]interface{}:
+		s, _ := x[name].(string)
+		return s
+	}
+	panic(fmt.Sprintf("unexpected value type %T", v))
+}
+
 type seed struct {
 	ID string `json:"id"`
 	A  string `json:"a"`
@@ -63,21 +101,28 @@ func pointCode(name string) int {
 
 // ---------------------------------------------------------------- store set-up (both roles)
 
-func openStore(dir, prefix string, nidx int) (*badger.DB, *badgerstore.Store, *badgerstore.QueryStore, error) {
+func openStore(dir, prefix string, nidx int, untyped, noqs bool) (*badger.DB, *badgerstore.Store, *badgerstore.QueryStore, error) {
 	opts := badger.DefaultOptions(dir)
 	opts.Logger = nil
 	db, err := badger.Open(opts)
 	if err != nil {
 		return nil, nil, nil, err
 	}
-	st := badgerstore.NewStore(db).SetType(val{}).SetPrefix(prefix)
+	st := badgerstore.NewStore(db).SetPrefix(prefix)
+	if !untyped {
+		st.SetType(rec{})
+	}
+	if noqs {
+		return db, st, nil, nil
+	}
 	qs := badgerstore.NewQueryStore(st, func(qs *badgerstore.QueryStore, q url.Values) (*badgerstore.IndexQuery, error) {
-		return &badgerstore.IndexQuery{Index: qs.Index(q.Get("idx")), Limit: -1}, nil
+		return &badgerstore.IndexQuery{Index: qs.Index(q.Get("idx")), KeyPrefix: []byte(q.Get("kp")), Limit: -1}, nil
 	})
-	qs.AddIndex(badgerstore.Index{Name: "ia", Key: func(v interface{}) []byte { return []byte(v.(val).A) }})
+	// ia: member A, never nil (an absent member gives the empty key); ib: member B, nil when absent/empty
+	qs.AddIndex(badgerstore.Index{Name: "ia", Key: func(v interface{}) []byte { return []byte(member(v, "A")) }})
 	if nidx >= 2 {
 		qs.AddIndex(badgerstore.Index{Name: "ib", Key: func(v interface{}) []byte {
-			if b := v.(val).B; b != "" {
+			if b := member(v, "B"); b != "" {
 				return []byte(b)
 			}
 			return nil
@@ -95,6 +140,8 @@ func childMain(args []string) {
 	nidx := fs.Int("nidx", 1, "")
 	opsFile := fs.String("ops", "", "")
 	slowUs := fs.Int("slowus", 0, "")
+	untyped := fs.Bool("untyped", false, "")
+	noqs := fs.Bool("noqs", false, "")
 	fs.Parse(args)
 	b, err := os.ReadFile(*opsFile)
 	if err != nil {
@@ -106,7 +153,7 @@ func childMain(args []string) {
 		fmt.Println("FATAL", err)
 		os.Exit(3)
 	}
-	db, st, qs, err := openStore(*dir, *prefix, *nidx)
+	db, st, qs, err := openStore(*dir, *prefix, *nidx, *untyped, *noqs)
 	if err != nil {
 		fmt.Println("FATAL", err)
 		os.Exit(3)
@@ -124,17 +171,17 @@ func childMain(args []string) {
 		case "init":
 			err = st.Init(func(add func(id string, v interface{})) error {
 				for _, s := range o.Seeds {
-					add(s.ID, val{s.A, s.B})
+					add(s.ID, mkVal(*untyped, s.A, s.B))
 				}
 				return nil
 			})
 		case "create":
 			txn := st.Write(o.ID)
-			err = txn.Create(val{o.A, o.B})
+			err = txn.Create(mkVal(*untyped, o.A, o.B))
 			txn.Close()
 		case "update":
 			txn := st.Write(o.ID)
-			err = txn.Update(val{o.A, o.B})
+			err = txn.Update(mkVal(*untyped, o.A, o.B))
 			txn.Close()
 		case "delete":
 			txn := st.Write(o.ID)
@@ -147,7 +194,9 @@ func childMain(args []string) {
 			say("err")
 		}
 	}
-	qs.Flush()
+	if qs != nil {
+		qs.Flush()
+	}
 	hb, _ := json.Marshal(verifhook.Hits())
 	say("HITS " + string(hb))
 	db.Close()
@@ -161,6 +210,7 @@ type lifeSpec struct {
 	Kill    string `json:"kill,omitempty"`     // "<point>:<n>"
 	DelayUs int    `json:"delay_us,omitempty"` // > 0: SIGKILL that long after READY
 	SlowUs  int    `json:"slow_us,omitempty"`  // > 0: register a slow OnChange listener
+	NoQS    bool   `json:"no_querystore,omitempty"` // run without a QueryStore: values get no index entries
 }
 
 type lifeResult struct {
@@ -173,12 +223,18 @@ type lifeResult struct {
 
 var self string
 
-func runLife(dbdir, scratch string, n int, prefix string, nidx int, ls lifeSpec) lifeResult {
+func runLife(dbdir, scratch string, n int, prefix string, nidx int, untyped bool, ls lifeSpec) lifeResult {
 	var r lifeResult
 	of := fmt.Sprintf("%s/ops%d.json", scratch, n)
 	ob, _ := json.Marshal(ls.Ops)
 	os.WriteFile(of, ob, 0o644)
 	cmd := exec.Command(self, "child", "-dir", dbdir, "-prefix", prefix, "-nidx", strconv.Itoa(nidx), "-ops", of, "-slowus", strconv.Itoa(ls.SlowUs))
+	if untyped {
+		cmd.Args = append(cmd.Args, "-untyped")
+	}
+	if ls.NoQS {
+		cmd.Args = append(cmd.Args, "-noqs")
+	}
 	cmd.Env = append(os.Environ(), "VERIF_KILL="+ls.Kill)
 	var errb bytes.Buffer
 	cmd.Stderr = &errb
@@ -273,8 +329,17 @@ type observation struct {
 	OpenErr    string              `json:"open_err,omitempty"`
 	RebuildErr string              `json:"rebuild_err,omitempty"`
 	QueryErr   string              `json:"query_err,omitempty"`
-	Queries    map[string][]string `json:"queries,omitempty"`
+	Queries    []queryObs `json:"queries,omitempty"`
 }
+
+type queryObs struct {
+	Idx string   `json:"idx"`
+	KP  string   `json:"kp"` // key prefix ("" = whole index)
+	IDs []string `json:"ids"`
+}
+
+// key prefixes queried on every index after RebuildIndexes
+var queryPrefixes = []string{"", "x", "y", "z", "u", "v"}
 
 // observeMain opens the database in a process of its own (the parent never holds a BadgerDB
 // directory lock, so no forked child can inherit one), optionally calls RebuildIndexes and
@@ -285,9 +350,10 @@ func observeMain(args []string) {
 	prefix := fs.String("prefix", "", "")
 	nidx := fs.Int("nidx", 1, "")
 	rebuild := fs.Bool("rebuild", false, "")
+	untyped := fs.Bool("untyped", false, "")
 	fs.Parse(args)
 	var o observation
-	db, _, qs, err := openStore(*dir, *prefix, *nidx)
+	db, _, qs, err := openStore(*dir, *prefix, *nidx, *untyped, false)
 	if err != nil {
 		o.OpenErr = err.Error()
 	} else {
@@ -298,15 +364,16 @@ func observeMain(args []string) {
 		}
 		o.Entries, o.Bad = dump(db)
 		if *rebuild {
-			o.Queries = map[string][]string{}
 			for _, name := range []string{"ia", "ib"}[:*nidx] {
-				res, err := qs.Query(url.Values{"idx": {name}})
-				if err != nil {
-					o.QueryErr = err.Error()
+				for _, kp := range queryPrefixes {
+					res, err := qs.Query(url.Values{"idx": {name}, "kp": {kp}})
+					if err != nil {
+						o.QueryErr = err.Error()
+					}
+					ids, _ := res.([]string)
+					sort.Strings(ids)
+					o.Queries = append(o.Queries, queryObs{name, kp, ids})
 				}
-				ids, _ := res.([]string)
-				sort.Strings(ids)
-				o.Queries[name] = ids
 			}
 		}
 		if err := db.Close(); err != nil {
@@ -318,8 +385,11 @@ func observeMain(args []string) {
 	os.Exit(0)
 }
 
-func observe(dir, prefix string, nidx int, rebuild bool) (o observation) {
+func observe(dir, prefix string, nidx int, untyped, rebuild bool) (o observation) {
 	args := []string{"observe", "-dir", dir, "-prefix", prefix, "-nidx", strconv.Itoa(nidx)}
+	if untyped {
+		args = append(args, "-untyped")
+	}
 	if rebuild {
 		args = append(args, "-rebuild")
 	}
@@ -356,6 +426,26 @@ func dump(db *badger.DB) (es []entry, bad string) {
 		return nil
 	})
 	return
+}
+
+// descWithObs is the replayable description plus what was observed after RebuildIndexes
+// (LoadReplay reads it back as a jobDesc; the extra members are ignored).
+type descWithObs struct {
+	jobDesc
+	AfterRebuild []string   `json:"observed_after_rebuild"`
+	Queries      []queryObs `json:"observed_queries"`
+}
+
+func es2strs(es []entry) []string {
+	var xs []string
+	for _, e := range es {
+		if e.V == nil {
+			xs = append(xs, fmt.Sprintf("%q", e.K))
+		} else {
+			xs = append(xs, fmt.Sprintf("%q={A:%q,B:%q}", e.K, e.V.A, e.V.B))
+		}
+	}
+	return xs
 }
 
 func V(a, b string) string { return "(" + B(a) + "," + B(b) + ")" }
@@ -404,14 +494,15 @@ func runTerm(ls lifeSpec, r lifeResult, es []entry) string {
 			hs = append(hs, fmt.Sprintf("(%d,%d)", i, n))
 		}
 	}
-	return fmt.Sprintf("CR %s %d %d %s %s %s", opsTerm(ls.Ops), r.pt, r.occ, List(oks), List(hs), obsTerm(es))
+	return fmt.Sprintf("CR %s %d %d %s %s %s %s", opsTerm(ls.Ops), r.pt, r.occ, List(oks), List(hs), Bool(ls.NoQS), obsTerm(es))
 }
 
 // ---------------------------------------------------------------- parent: one case = one directory
 
 type jobDesc struct {
-	Prefix string     `json:"prefix"`
-	NIdx   int        `json:"nidx"`
+	Prefix  string     `json:"prefix"`
+	NIdx    int        `json:"nidx"`
+	Untyped bool       `json:"untyped,omitempty"` // default map[string]interface{} store with heterogeneous records
 	Lives  []lifeSpec `json:"lives"`
 }
 
@@ -438,7 +529,7 @@ func runJob(d jobDesc) (jo jobOut) {
 	}
 	var runs []string
 	for n, ls := range d.Lives {
-		r := runLife(dbdir, scratch, n, d.Prefix, d.NIdx, ls)
+		r := runLife(dbdir, scratch, n, d.Prefix, d.NIdx, d.Untyped, ls)
 		if n == 0 {
 			jo.first = r
 		}
@@ -451,7 +542,7 @@ func runJob(d jobDesc) (jo jobOut) {
 		} else {
 			jo.stats["life-killed-at-"+append(points, "random-time")[r.pt]]++
 		}
-		ob := observe(dbdir, d.Prefix, d.NIdx, false)
+		ob := observe(dbdir, d.Prefix, d.NIdx, d.Untyped, false)
 		if ob.OpenErr != "" {
 			fail("reopen after lifetime " + strconv.Itoa(n) + " failed: " + ob.OpenErr)
 			return
@@ -478,7 +569,7 @@ func runJob(d jobDesc) (jo jobOut) {
 		}
 		runs = append(runs, runTerm(ls, r, es))
 	}
-	ob := observe(dbdir, d.Prefix, d.NIdx, true)
+	ob := observe(dbdir, d.Prefix, d.NIdx, d.Untyped, true)
 	if ob.OpenErr != "" {
 		fail("final reopen failed: " + ob.OpenErr)
 		return
@@ -491,9 +582,36 @@ func runJob(d jobDesc) (jo jobOut) {
 	}
 	es := ob.Entries
 	var qts []string
-	for _, name := range []string{"ia", "ib"}[:d.NIdx] {
-		qts = append(qts, "("+B(name)+","+BList(ob.Queries[name])+")")
+	for _, q := range ob.Queries {
+		qts = append(qts, "("+B(q.Idx)+","+B(q.KP)+","+BList(q.IDs)+")")
 	}
+	// how often the rebuild scan meets a document lacking an indexed member after one having it
+	var prev *val
+	hetA, hetB := false, false
+	for _, e := range es {
+		if e.V != nil {
+			if prev != nil && prev.A != "" && e.V.A == "" {
+				hetA = true
+			}
+			if prev != nil && prev.B != "" && e.V.B == "" {
+				hetB = true
+			}
+			prev = e.V
+		}
+	}
+	if hetA {
+		jo.stats["rebuild-scans-document-without-A-after-one-with-A"]++
+	}
+	if hetB {
+		jo.stats["rebuild-scans-document-without-B-after-one-with-B"]++
+	}
+	if d.Untyped {
+		jo.stats["cases-untyped-map-store"]++
+	} else {
+		jo.stats["cases-typed-omitempty-store"]++
+	}
+	// what a violation of the rebuild clause looks like, spelled out for the replay
+	jo.c.Desc = descWithObs{d, es2strs(es), ob.Queries}
 	if ob.RebuildErr != "" {
 		jo.stats["rebuild-failed"]++
 		jo.c.Tags = append(jo.c.Tags, "rebuild-error")
@@ -511,7 +629,7 @@ func prefixOf(p string) string {
 
 // ---------------------------------------------------------------- workloads
 
-var avals = []string{"x", "y", "z"}
+var avals = []string{"x", "y", "z", "x", "y", ""} // "" = member A absent from the stored document
 var bvals = []string{"", "u", "v"}
 
 // genOps makes a seeded workload body over the ids known to exist / not to exist.
@@ -593,6 +711,7 @@ func genOps(r *Rng, live map[string]val, seeds []seed, n int, forceSeedDelete bo
 type workload struct {
 	prefix     string
 	nidx       int
+	untyped    bool
 	ops1, ops2 []op
 }
 
@@ -601,7 +720,9 @@ func genWorkload(r *Rng, w int, thorough bool) workload {
 	if w%2 == 1 {
 		wl.prefix = "pfx"
 	}
-	if w%4 == 1 || w%4 == 2 {
+	// quick: typed store without prefix, untyped store with prefix, both with two indexes
+	wl.untyped = (w/2)%2 == 1 || w == 1
+	if w >= 2 && (w/4)%2 == 1 {
 		wl.nidx = 1
 	}
 	ns := 2 + r.Intn(2)
@@ -612,6 +733,12 @@ func genWorkload(r *Rng, w int, thorough bool) workload {
 	live := map[string]val{}
 	for i := 1; i <= ns; i++ {
 		s := seed{fmt.Sprintf("s%d", i), r.Pick(avals), r.Pick(bvals)}
+		// a document that has the indexed members directly before one that lacks them
+		if i == 1 {
+			s.A, s.B = r.Pick(avals[:3]), r.Pick(bvals[1:])
+		} else if i == 2 {
+			s.B = ""
+		}
 		seeds = append(seeds, s)
 		live[s.ID] = val{s.A, s.B}
 	}
@@ -684,7 +811,7 @@ func main() {
 		for w := 0; w < nw; w++ {
 			wl := genWorkload(r, w, thorough)
 			wls = append(wls, wl)
-			dry = append(dry, jobDesc{wl.prefix, wl.nidx, []lifeSpec{{Ops: wl.ops1}, {Ops: wl.ops2}}})
+			dry = append(dry, jobDesc{wl.prefix, wl.nidx, wl.untyped, []lifeSpec{{Ops: wl.ops1}, {Ops: wl.ops2}}})
 		}
 		// learn how often every crash point is hit by the first lifetime
 		douts := runAll(dry)
@@ -699,24 +826,29 @@ func main() {
 					if r.Chance(45) {
 						l2.Kill = r.Pick(kill2)
 					}
-					descs = append(descs, jobDesc{wl.prefix, wl.nidx,
+					descs = append(descs, jobDesc{wl.prefix, wl.nidx, wl.untyped,
 						[]lifeSpec{{Ops: wl.ops1, Kill: fmt.Sprintf("%s:%d", points[pi], n)}, l2}})
 					dist["kill-pairs-enumerated"]++
 				}
 			}
 			// killed inside Init again and again, then a clean lifetime
-			descs = append(descs, jobDesc{wl.prefix, wl.nidx, []lifeSpec{
+			descs = append(descs, jobDesc{wl.prefix, wl.nidx, wl.untyped, []lifeSpec{
 				{Ops: wl.ops1, Kill: "init-seed-set:2"}, {Ops: wl.ops1, Kill: "init-before-marker:1"},
 				{Ops: wl.ops1, Kill: "index-before:2"}, {Ops: wl.ops2}}})
+			// values written without a QueryStore attached (no index entries at all), killed or
+			// not, then a lifetime with the QueryStore, then RebuildIndexes
+			descs = append(descs, jobDesc{wl.prefix, wl.nidx, wl.untyped, []lifeSpec{{Ops: wl.ops1, NoQS: true}, {Ops: wl.ops2}}},
+				jobDesc{wl.prefix, wl.nidx, wl.untyped, []lifeSpec{{Ops: wl.ops1, NoQS: true, Kill: "update-committed:2"}}},
+				jobDesc{wl.prefix, wl.nidx, wl.untyped, []lifeSpec{{Ops: wl.ops1, NoQS: true, Kill: "delete-before:1"}, {Ops: wl.ops2, NoQS: true}}})
 			// a slow application listener lets the index goroutine overtake the Init transaction
 			for _, k := range []string{"init-before-marker:1", "index-committed:2", "index-before:3"} {
-				descs = append(descs, jobDesc{wl.prefix, wl.nidx, []lifeSpec{
+				descs = append(descs, jobDesc{wl.prefix, wl.nidx, wl.untyped, []lifeSpec{
 					{Ops: wl.ops1, Kill: k, SlowUs: 3000}, {Ops: wl.ops2, SlowUs: 500}}})
 			}
 			if thorough {
 				us := int(douts[w].first.dur / time.Microsecond)
 				for k := 0; k < 8; k++ {
-					descs = append(descs, jobDesc{wl.prefix, wl.nidx,
+					descs = append(descs, jobDesc{wl.prefix, wl.nidx, wl.untyped,
 						[]lifeSpec{{Ops: wl.ops1, DelayUs: 1 + r.Intn(us+1)}, {Ops: wl.ops2}}})
 					dist["random-time-kills-requested"]++
 				}
@@ -737,10 +869,10 @@ func main() {
 	}
 	cfgs := map[string]bool{}
 	for _, d := range descs {
-		cfgs[fmt.Sprintf("%s/%d", d.Prefix, d.NIdx)] = true
+		cfgs[fmt.Sprintf("%s/%d/%v", d.Prefix, d.NIdx, d.Untyped)] = true
 	}
-	dist["store-configurations(prefix x indexes)"] = len(cfgs)
+	dist["store-configurations(prefix x indexes x typed/untyped)"] = len(cfgs)
 	Emit(o, "C12", "From GoRes Require Import Run.Run_C12.", "ccase",
-		"one case = one BadgerDB directory: child process runs Init + a seeded workload of creates/updates/deletes/re-inits and is SIGKILLed at one (crash point, occurrence) pair - every pair of every workload is enumerated - or at a random time, is restarted on the same directory (sometimes killed again), then the parent reopens the database, records all keys/values, calls RebuildIndexes and queries every index; distinct by (configuration, workloads, kill points)",
+		"one case = one BadgerDB directory: child process runs Init + a seeded workload of creates/updates/deletes/re-inits and is SIGKILLed at one (crash point, occurrence) pair - every pair of every workload is enumerated - or at a random time, is restarted on the same directory (sometimes killed again), then the parent reopens the database, records all keys/values, calls RebuildIndexes and queries every index (whole index and every key prefix) and compares with the scan of the stored values; stored documents are heterogeneous (typed struct with omitempty members / untyped map records with differing member sets, empty = absent); some lifetimes run without a QueryStore so values have no index entries before the rebuild; distinct by (configuration, workloads, kill points)",
 		cases, dist, nil, impl, 12)
 }
